@@ -90,6 +90,7 @@ type GenesisSpec struct {
 	Tenants    []settlementtypes.Tenant
 	Utxrs      []settlementtypes.UTXRWithTenantAndId
 	Funds      sdk.Coins // per account
+	FastUnbond bool
 	MaxGas     int64     // consensus max gas; 0 => -1
 	RawState   map[string]json.RawMessage // when set, used instead of building (export/import)
 	InitialHeight int64                   // 0 => 1
@@ -258,6 +259,9 @@ func (c *Chain) buildGenesis(spec GenesisSpec) map[string]json.RawMessage {
 	sp := stakingtypes.DefaultParams()
 	sp.BondDenom = config.BaseDenom
 	sp.MinCommissionRate = sdk.ZeroDec()
+	if spec.FastUnbond {
+		sp.UnbondingTime = time.Nanosecond
+	}
 	gs[stakingtypes.ModuleName] = cdc.MustMarshalJSON(stakingtypes.NewGenesisState(sp, validators, delegations))
 	if bonded.IsPositive() {
 		coins := sdk.NewCoins(sdk.NewCoin(config.BaseDenom, bonded))
